@@ -247,6 +247,10 @@ class Check:
         k = self.match_known(sig)
         if k is not None:
             self.known_hits[k['id']] = self.known_hits.get(k['id'], 0) + 1
+            if self.known_hits[k['id']] <= 2:      # keep a replay of the recorded finding's instance as well
+                kp = os.path.join(VERIF, 'replays', f"known_{k['id']}_{self.known_hits[k['id']]}.json")
+                with open(kp, 'w') as f:
+                    json.dump({'property': self.pid, 'what': what, 'sig': sig, 'case': replay, 'finding': k['id']}, f, indent=1, default=str)
             return False
         h = hashlib.sha1(json.dumps(replay, sort_keys=True, default=str).encode()).hexdigest()[:12]
         path = os.path.join(VERIF, 'replays', f'{self.pid}_{h}.json')
@@ -275,7 +279,10 @@ class Check:
         ev = {'property_id': self.pid, 'tier': self.tier, 'seed': self.seed, 'level': 'model_checking',
               'coverage': cov, 'assumptions': self.assumptions, 'wall_s': round(time.time() - self.t0, 2),
               'violations': len(self.violations)}
-        with open(os.path.join(VERIF, 'evidence', f'{self.pid}.json'), 'w') as f:
+        # evidence describes runs against /repo itself; runs against another tree (LMM_REPO) go elsewhere
+        evdir = 'evidence' if os.path.realpath(REPO) == '/repo' else 'evidence_other'
+        os.makedirs(os.path.join(VERIF, evdir), exist_ok=True)
+        with open(os.path.join(VERIF, evdir, f'{self.pid}.json'), 'w') as f:
             json.dump(ev, f, indent=1, default=str)
         print(f'{self.pid} tier={self.tier} seed={self.seed}: evaluations={cov["evaluations"]} '
               f'nontrivial={cov["distinct_nontrivial"]} states={cov["states"]} traces={cov["traces_validated_against_impl"]} '
